@@ -60,6 +60,7 @@ class SymArr(np.ndarray):
         obj = np.asarray(data, dtype=object).view(cls)
         obj.kind = kind
         obj.sparse = sparse
+        obj._fbase = None
         return obj
 
     def __array_finalize__(self, obj):
@@ -67,6 +68,8 @@ class SymArr(np.ndarray):
             return
         self.kind = getattr(obj, "kind", "real")
         self.sparse = getattr(obj, "sparse", False)
+        # float view of a quaternion array (quaternion.as_float_array): (quaternion base array, root float array)
+        self._fbase = getattr(obj, "_fbase", None)
 
     def __array_wrap__(self, out, context=None, return_scalar=False):
         r = super().__array_wrap__(out, context, return_scalar) if hasattr(super(), "__array_wrap__") else out
@@ -218,6 +221,21 @@ class Namespace:
         raise Unsupported(f"unknown-external {self._name}.{attr}")
 
 
+class _UFunc:
+    """binary max/min ufunc model with .reduce"""
+
+    def __init__(self, dom, name):
+        self.dom, self.name = dom, name
+
+    def __call__(self, a, b, **k):
+        if isinstance(a, SymArr) or isinstance(b, SymArr):
+            return self.dom._pairwise(self.name, a, b)
+        return self.dom.b_max(a, b) if self.name == "max" else self.dom.b_min(a, b)
+
+    def reduce(self, a, axis=0, **k):
+        return self.dom._red(self.name, a, axis)
+
+
 class SymDomain(BaseDomain):
     """choice(n, why) is called for data dependent index choices (argmax)."""
 
@@ -287,7 +305,8 @@ class SymDomain(BaseDomain):
             ravel=lambda a: wrap(np.ravel(wrap(a)), wrap(a).kind),
             conjugate=d.np_conj, conj=d.np_conj, real=d.np_real, imag=d.np_imag,
             sum=d.np_sum, prod=d.np_prod, sqrt=d.f_sqrt, abs=d.np_abs, absolute=d.np_abs,
-            max=d.np_max, min=d.np_min, maximum=lambda a, b: d.b_max(a, b), minimum=lambda a, b: d.b_min(a, b),
+            max=d.np_max, min=d.np_min, maximum=_UFunc(d, "max"), minimum=_UFunc(d, "min"), amax=d.np_max, amin=d.np_min,
+            nanmax=d.np_max, nanmin=d.np_min,
             argmax=d.np_argmax, argmin=d.np_argmin, argsort=d.np_argsort,
             allclose=lambda a, b, **k: UNKNOWN(("allclose", a, b)), isclose=lambda *a, **k: UNKNOWN("isclose"),
             any=d.np_any, all=d.np_all, isscalar=d.np_isscalar,
@@ -303,10 +322,41 @@ class SymDomain(BaseDomain):
             count_nonzero=d.np_count_nonzero,
             triu=lambda a, k=0: d._tri(a, k, True), tril=lambda a, k=0: d._tri(a, k, False),
             ix_=np.ix_, prod_=None,
+            fmax=_UFunc(d, "max"), fmin=_UFunc(d, "min"),
+            diagonal=lambda a, offset=0, **k: SymArr(np.diagonal(np.asarray(wrap(a), dtype=object), offset).copy(), wrap(a).kind),
+            atleast_1d=lambda a: (wrap(a).reshape(1) if wrap(a).ndim == 0 else wrap(a)),
+            atleast_2d=lambda a: (wrap(a).reshape(1, -1) if wrap(a).ndim < 2 else wrap(a)),
+            nonzero=d.np_nonzero, flatnonzero=lambda a: d.np_nonzero(wrap(a).reshape(-1))[0],
+            round=d.np_round, around=d.np_round, rint=lambda v: d.np_round(v, 0),
+            int64=TypeModel("int64", lambda v: isinstance(v, (int, np.integer)), lambda v=0: d.b_int(v)),
+            int32=TypeModel("int32", lambda v: isinstance(v, (int, np.integer)), lambda v=0: d.b_int(v)),
+            intp=TypeModel("intp", lambda v: isinstance(v, (int, np.integer)), lambda v=0: d.b_int(v)),
+            uint8=DType("int"), uint16=DType("int"), int8=DType("int"), int16=DType("int"),
+            bool_=TypeModel("bool_", lambda v: isinstance(v, (bool, np.bool_)), lambda v=False: d.b_bool(v)),
+            add=Namespace("np.add", at=d.np_add_at, reduce=lambda a, axis=0, **k: d.np_sum(a, axis=axis)),
+            square=lambda v: v * v, negative=lambda v: -v, multiply=lambda a, b: d.binop(d._interp, operator.mul, a, b, None),
+            subtract=lambda a, b: d.binop(d._interp, operator.sub, a, b, None),
+            divide=lambda a, b: d.binop(d._interp, operator.truediv, a, b, None),
+            power=lambda a, b: d.binop(d._interp, operator.pow, a, b, None),
+            einsum=d.np_einsum, tensordot=lambda a, b, axes=2: wrap(np.tensordot(np.asarray(wrap(a), dtype=object), np.asarray(wrap(b), dtype=object), axes=axes)),
+            broadcast_to=lambda a, shape: SymArr(np.broadcast_to(np.asarray(wrap(a), dtype=object), shape).copy(), wrap(a).kind),
+            expand_dims=lambda a, axis: SymArr(np.expand_dims(np.asarray(wrap(a), dtype=object), axis), wrap(a).kind),
+            squeeze=lambda a, axis=None: SymArr(np.squeeze(np.asarray(wrap(a), dtype=object), axis), wrap(a).kind),
+            take=lambda a, idx, axis=None: SymArr(np.take(np.asarray(wrap(a), dtype=object), idx, axis=axis), wrap(a).kind),
+            flip=lambda a, axis=None: SymArr(np.flip(np.asarray(wrap(a), dtype=object), axis), wrap(a).kind),
+            tile=lambda a, reps: SymArr(np.tile(np.asarray(wrap(a), dtype=object), reps), wrap(a).kind),
+            repeat=lambda a, n, axis=None: SymArr(np.repeat(np.asarray(wrap(a), dtype=object), n, axis=axis), wrap(a).kind),
+            indices=lambda dims, **k: np.indices(dims), meshgrid=lambda *xs, **k: [SymArr(g.astype(object), "real") for g in np.meshgrid(*[np.asarray(wrap(x), dtype=object) for x in xs], **k)],
+            unravel_index=np.unravel_index, ravel_multi_index=np.ravel_multi_index, mod=lambda a, b: a % b, floor_divide=lambda a, b: a // b,
+            cumsum=lambda a, axis=None: SymArr(np.cumsum(np.asarray(wrap(a), dtype=object), axis=axis), wrap(a).kind),
+            ndindex=np.ndindex, ndenumerate=lambda a: [(i, wrap(a)[i]) for i in np.ndindex(*wrap(a).shape)],
+            ascontiguousarray=lambda a, **k: wrap(a).copy(), asfortranarray=lambda a, **k: SymArr(np.asfortranarray(np.asarray(wrap(a), dtype=object)), wrap(a).kind),
             sign=d.np_sign, diff=d.np_diff, exp=lambda v: d._elem_fn("exp", v), log=lambda v: d._elem_fn("log", v),
             triu_indices=lambda n, k=0, m=None: np.triu_indices(n, k, m), tril_indices=lambda n, k=0, m=None: np.tril_indices(n, k, m),
             diag_indices=lambda n, ndim=2: np.diag_indices(n, ndim),
-            linalg=Namespace("np.linalg", norm=d.la_norm, svd=d.la_svd, qr=d.la_qr_np, eig=d.la_eig, eigh=d.la_eigh,
+            linalg=Namespace("np.linalg", cholesky=d.la_cholesky, solve=d.la_solve, det=lambda a: Opaque("det"),
+                             matrix_rank=lambda a, **k: Opaque("matrix_rank"), lstsq=lambda a, b, **k: (d.la_solve(a, b), None, None, None),
+                             norm=d.la_norm, svd=d.la_svd, qr=d.la_qr_np, eig=d.la_eig, eigh=d.la_eigh,
                              eigvals=d.la_eigvals, eigvalsh=d.la_eigvals, pinv=d.la_pinv, inv=d.la_pinv,
                              LinAlgError=None),
             random=Namespace("np.random", randn=d.rng_randn, rand=d.rng_randn, seed=lambda *a: None,
@@ -469,6 +519,17 @@ class SymDomain(BaseDomain):
         a = wrap(a)
         if axis is None and all(isinstance(v, (bool, np.bool_)) or is_unknown(v) for v in a.reshape(-1)):
             return self._count_true(a)
+        if axis is None:
+            # numeric array: an entry counts when it is non-zero; entries whose vanishing depends on data are decided
+            n = 0
+            for v in a.reshape(-1):
+                t = self.truth(v)
+                if is_unknown(t):
+                    if self._interp is None:
+                        return UNKNOWN("count_nonzero")
+                    t = self._interp.decide(self._cur_node, t)
+                n += 1 if t else 0
+            return n
         return UNKNOWN("count_nonzero")
 
     def np_prod(self, a, axis=None):
@@ -543,7 +604,17 @@ class SymDomain(BaseDomain):
             return SymArr(np.argsort(vals).astype(object), "real")
         raise Unsupported("argsort of symbolic data")
 
-    def np_any(self, a, **k):
+    def _reduce_bool(self, f, a, axis):
+        a = wrap(a)
+        moved = np.moveaxis(np.asarray(a, dtype=object), axis, -1)
+        out = np.empty(moved.shape[:-1], dtype=object)
+        for idx in np.ndindex(*moved.shape[:-1]):
+            out[idx] = f(SymArr(moved[idx], "real"))
+        return SymArr(out, "real")
+
+    def np_any(self, a, axis=None, **k):
+        if axis is not None:
+            return self._reduce_bool(self.np_any, a, axis)
         a = wrap(a)
         unknown = False
         for v in a.reshape(-1):
@@ -561,7 +632,9 @@ class SymDomain(BaseDomain):
             return UNKNOWN(("any", [v for v in a.reshape(-1)]))
         return False
 
-    def np_all(self, a, **k):
+    def np_all(self, a, axis=None, **k):
+        if axis is not None:
+            return self._reduce_bool(self.np_all, a, axis)
         a = wrap(a)
         unknown = False
         for v in a.reshape(-1):
@@ -593,6 +666,61 @@ class SymDomain(BaseDomain):
             v = P(af[i])
             of[i] = Poly.const(min(max(v.const_value(), lo), hi)) if v.is_const() else Poly.atom(("clip", v.key(), lo, hi))
         return out
+
+    def _pairwise(self, name, a, b):
+        a, b = np.broadcast_arrays(np.asarray(wrap(a), dtype=object), np.asarray(wrap(b), dtype=object))
+        out = mk(a.shape, "real")
+        for idx in np.ndindex(*a.shape):
+            out[idx] = self.sym_minmax(name, [a[idx], b[idx]])
+        return out
+
+    def np_nonzero(self, a):
+        """indices of the entries that are non-zero; entries whose vanishing depends on data are decided through the chooser"""
+        a = wrap(a)
+        flat = list(a.reshape(-1))
+        dec = []
+        for v in flat:
+            t = self.truth(v) if not isinstance(v, (bool, np.bool_)) else bool(v)
+            if is_unknown(t):
+                if self._interp is None:
+                    raise Unsupported("data dependent np.nonzero")
+                t = self._interp.decide(self._cur_node, t)
+            dec.append(bool(t))
+        return np.nonzero(np.asarray(dec, dtype=bool).reshape(a.shape))
+
+    def np_round(self, v, decimals=0, **k):
+        def one(x):
+            x = P(x)
+            if x.is_const():
+                return Poly.const(round(float(x.const_value()), int(decimals)))
+            return Poly.atom(("round", x.key(), int(decimals)))      # rounding changes a generic value: a new, distinct value
+        if isinstance(v, SymArr) and v.kind == "complex":
+            out = mk(v.shape, "complex")
+            of, af = out.reshape(-1), v.reshape(-1)
+            for i in range(af.size):
+                c = SC.lift(af[i])
+                of[i] = SC(one(c.re), one(c.im))
+            return out
+        return self._map(one, v)
+
+    def np_add_at(self, a, idx, v):
+        idx = self._conv_index(idx)
+        base = np.asarray(a, dtype=object)
+        if isinstance(idx, tuple):
+            arrs = np.broadcast_arrays(*[np.asarray(i) for i in idx])
+            vals = np.broadcast_to(np.asarray(wrap(v), dtype=object) if isinstance(v, (SymArr, list, tuple)) else np.asarray([v], dtype=object), arrs[0].shape) \
+                if not np.isscalar(v) or True else None
+            for k_ in np.ndindex(*arrs[0].shape):
+                pos = tuple(int(x[k_]) for x in arrs)
+                base[pos] = base[pos] + (vals[k_] if vals.shape == arrs[0].shape else v)
+        else:
+            ia = np.asarray(idx)
+            for k_ in np.ndindex(*ia.shape):
+                base[int(ia[k_])] = base[int(ia[k_])] + v
+
+    def np_einsum(self, spec, *ops):
+        arrs = [np.asarray(wrap(o), dtype=object) for o in ops]
+        return wrap(np.einsum(spec, *arrs, optimize=False))
 
     def np_sign(self, v):
         def one(x):
@@ -730,6 +858,18 @@ class SymDomain(BaseDomain):
         t = self.fresh("eigvals")
         return labelled(f"eigvals{t}.w", (a.shape[0],), "complex")
 
+    def la_cholesky(self, a, **k):
+        a = wrap(a)
+        t = self.fresh("chol")
+        self.events.append(("cholesky", t, a))
+        return labelled(f"chol{t}.L", a.shape)
+
+    def la_solve(self, a, b, **k):
+        a, b = wrap(a), wrap(b)
+        t = self.fresh("solve")
+        self.events.append(("solve", t, a, b))
+        return labelled(f"solve{t}.X", (a.shape[1],) + tuple(b.shape[1:]))
+
     def la_pinv(self, a, **k):
         a = wrap(a)
         t = self.fresh("pinv")
@@ -757,6 +897,7 @@ class SymDomain(BaseDomain):
                 q = a[idx]
                 for p in range(4):
                     out[idx + (p,)] = q.c[p]
+            out._fbase = (a, out)        # numpy-quaternion returns a VIEW: stores into it change the quaternion array
             return out
 
         def as_quat_array(a):
@@ -941,7 +1082,7 @@ class SymDomain(BaseDomain):
         return super().compare(interp, op, a, b, node)
 
     def getattr(self, interp, obj, attr, node=None):
-        if isinstance(obj, Namespace):
+        if isinstance(obj, (Namespace, _UFunc)):
             return getattr(obj, attr)
         if isinstance(obj, SymArr):
             return self.arr_attr(obj, attr, node, interp)
@@ -979,7 +1120,7 @@ class SymDomain(BaseDomain):
         if attr in ("real", "imag") and not a.sparse:
             return self._part(a, attr)
         if attr == "copy":
-            return lambda *x, **k: SymArr(np.array(a, dtype=object, copy=True), a.kind, a.sparse)
+            return lambda *x, **k: SymArr(np.array(a, dtype=object, copy=True), a.kind, a.sparse)      # (fresh: no _fbase)
         if attr == "reshape":
             def reshape(*shape, **k):
                 if len(shape) == 1 and isinstance(shape[0], (tuple, list)):
@@ -1054,6 +1195,8 @@ class SymDomain(BaseDomain):
             return r
         if isinstance(obj, Opaque):
             return obj
+        if isinstance(obj, np.ndarray):
+            return obj[self._conv_index(idx)]
         if isinstance(idx, (Poly,)) and idx.is_const():
             idx = int(idx.const_value())
         if isinstance(idx, np.integer):
@@ -1110,6 +1253,7 @@ class SymDomain(BaseDomain):
                     base[idx] = cell[()] if not isinstance(base[idx], np.ndarray) else cell
                 except ValueError as e:
                     raise ModelError(str(e))
+                self._sync_float_view(obj)
                 return
             if obj.kind == "quat":
                 lift = np.frompyfunc(lambda x: x if isinstance(x, (SQ, NQ)) else SQ.lift(x), 1, 1)
@@ -1126,16 +1270,51 @@ class SymDomain(BaseDomain):
                     base[idx] = vv
             except ValueError as e:
                 raise ModelError(str(e))
+            self._sync_float_view(obj)
             return
         if isinstance(idx, np.integer):
             idx = int(idx)
         obj[idx] = v
 
+    def setattr(self, interp, obj, attr, v, node):
+        if isinstance(obj, SymArr) and attr in ("real", "imag"):
+            vv = np.broadcast_to(np.asarray(wrap(v), dtype=object) if isinstance(v, (SymArr, list, tuple)) else np.asarray(v, dtype=object), obj.shape)
+            flat = obj.reshape(-1)
+            vf = vv.reshape(-1)
+            if obj.kind == "complex":
+                for i in range(flat.size):
+                    c = SC.lift(flat[i])
+                    flat[i] = SC(vf[i], c.im) if attr == "real" else SC(c.re, vf[i])
+                return
+            if obj.kind == "real" and attr == "real":
+                for i in range(flat.size):
+                    flat[i] = vf[i]
+                return
+        return super().setattr(interp, obj, attr, v, node)
+
+    def _sync_float_view(self, obj):
+        fb = getattr(obj, "_fbase", None)
+        if fb is None:
+            return
+        qarr, root = fb
+        if not np.shares_memory(np.asarray(obj), np.asarray(root)):
+            return
+        for idx in itertools.product(*[range(s_) for s_ in qarr.shape]):
+            comps = [root[idx + (p,)] for p in range(4)]
+            old_q = qarr[idx]
+            if isinstance(old_q, SQ) and all(P(a_).same(b_) for a_, b_ in zip(comps, old_q.c)):
+                continue
+            np.asarray(qarr, dtype=object)[idx] = SQ(*comps)
+
     def iterate(self, interp, v, node):
+        if isinstance(v, np.ndarray) and not isinstance(v, SymArr):
+            return [x if not isinstance(x, np.generic) else x.item() for x in v] if v.ndim == 1 else [v[i] for i in range(v.shape[0])]
         if isinstance(v, SymArr):
             if v.ndim == 0:
                 raise ModelError("iteration over a 0-d array")
             return [self.getitem(interp, v, i, node) for i in range(v.shape[0])]
+        if isinstance(v, (np.ndindex, itertools.product, itertools.combinations, itertools.permutations)):
+            return list(v)
         return NotImplemented
 
     def contains(self, interp, container, item, node):
